@@ -170,19 +170,19 @@ def findEocd64 (nominal upper : Nat) : M (Eocd64 × Nat) :=
 open M in
 /-- `ZipArchive::get_directory_counts` → (archive_offset, directory_start, number_of_files). -/
 def getDirectoryCounts (footer : Eocd) (cdeStart : Nat) : M (Nat × Nat × Nat) := do
-  let sk ← attempt (seek (.endOff (-(20 + 22 + (footer.comment.length : Int)))))
-  let loc : Option Locator ← match sk with
-    | .ok _ => do
+  let loc : Option Locator ←
+    -- the end record was found less than 20 bytes into the file: a locator does not fit in front of it
+    -- (decided from the known position, no I/O: an empty archive)
+    (if cdeStart < 20 then pure none else do
+      -- the end record and its comment were read at `cdeStart ≥ 20`, so the position is not negative: EVERY
+      -- failure of this seek, of whatever kind, is a real I/O error (D18 repair, second part: the kind
+      -- `InvalidInput` is no longer taken for "file too short")
+      let _ ← seek (.endOff (-(20 + 22 + (footer.comment.length : Int))))
       let r ← attempt parseLocator
       match r with
       | .ok l => pure (some l)
       | .error .invalidArchive => pure none
-      | .error e => throw e
-    -- the file is too short to hold a locator in front of the footer: the seek to a negative
-    -- position is refused (`InvalidInput`), nothing to look at
-    | .error (.io .invalidInput) => pure none
-    -- any other failure of the seek is a real I/O error (the D18 repair)
-    | .error e => throw e
+      | .error e => throw e)
   match loc with
   | none =>
     let sz := footer.cdSize.toNat
